@@ -218,3 +218,87 @@ func TestChainSelection(t *testing.T) {
 		})
 	})
 }
+
+var recRecon = ev.New("C02", "reconsider-branches",
+	"a block X with 2-4 descendant branches of different lengths/work next to an independent main branch M: everything is delivered, X is invalidated (tip must move to the best chain without X), M or another branch grows, X is reconsidered (tip must move to the most-work chain again including X); header-only tips and a connect-invalid block on one branch are mixed in; "+
+		"oracle: chain-selection model + all view checks after every step; non-trivial = the reconsidered block has >= 2 descendant tips with different work; distinct by tree hash",
+	"two-tips", "three-plus-tips", "with-header-tip", "with-invalid-branch")
+
+func TestReconsiderBranches(t *testing.T) {
+	rapid.Check(t, func(t *rapid.T) {
+		fam := rapid.SampledFrom([]ce.Family{ce.FamFlat, ce.FamWork}).Draw(t, "family")
+		tr := ce.NewTree(fam, ce.NewParams(fam, 1))
+		ext := func(p *ce.Node, n int) *ce.Node {
+			for i := 0; i < n; i++ {
+				p = tr.Extend(p, ce.BlockOpt{Hard: fam == ce.FamWork && rapid.IntRange(0, 2).Draw(t, "hard") == 0, TimeDelta: 0})
+			}
+			return p
+		}
+		base := ext(tr.Genesis, rapid.IntRange(0, 2).Draw(t, "base"))
+		m := ext(base, rapid.IntRange(1, 4).Draw(t, "mainLen"))
+		x := ext(base, 1)
+		stem := ext(x, rapid.IntRange(0, 2).Draw(t, "stem"))
+		nb := rapid.IntRange(2, 4).Draw(t, "branches")
+		var tips []*ce.Node
+		invalidBranch := -1
+		if rapid.IntRange(0, 3).Draw(t, "withInvalid") == 0 {
+			invalidBranch = rapid.IntRange(0, nb-1).Draw(t, "invalidBranch")
+		}
+		for b := 0; b < nb; b++ {
+			p := stem
+			l := rapid.IntRange(1, 6).Draw(t, "branchLen")
+			for i := 0; i < l; i++ {
+				opt := ce.BlockOpt{Hard: fam == ce.FamWork && rapid.IntRange(0, 2).Draw(t, "hard") == 0}
+				if b == invalidBranch && i == l/2 {
+					opt.Break = "coinbase-overpay"
+				}
+				p = tr.Extend(p, opt)
+			}
+			tips = append(tips, p)
+		}
+		headerTip := rapid.IntRange(0, 2).Draw(t, "headerTip") == 0
+		var hdrNodes []*ce.Node
+		if headerTip {
+			p := tips[rapid.IntRange(0, len(tips)-1).Draw(t, "hdrOn")]
+			for i := 0; i < rapid.IntRange(1, 8).Draw(t, "hdrLen"); i++ {
+				p = tr.Extend(p, ce.BlockOpt{})
+				hdrNodes = append(hdrNodes, p)
+			}
+		}
+		var steps []ce.Step
+		isHdr := map[*ce.Node]bool{}
+		for _, n := range hdrNodes {
+			isHdr[n] = true
+		}
+		for _, n := range tr.Nodes[1:] {
+			if isHdr[n] {
+				steps = append(steps, ce.Step{Kind: "header", Node: n})
+			} else {
+				steps = append(steps, ce.Step{Kind: "block", Node: n})
+			}
+		}
+		steps = append(steps, ce.Step{Kind: "invalidate", Node: x})
+		// grow the main branch (or not) while X is out
+		grow := rapid.IntRange(0, 3).Draw(t, "grow")
+		p := m
+		for i := 0; i < grow; i++ {
+			p = tr.Extend(p, ce.BlockOpt{Hard: fam == ce.FamWork && rapid.Bool().Draw(t, "hardGrow")})
+			steps = append(steps, ce.Step{Kind: "block", Node: p})
+		}
+		steps = append(steps, ce.Step{Kind: "reconsider", Node: x})
+		if rapid.Bool().Draw(t, "again") {
+			steps = append(steps, ce.Step{Kind: "invalidate", Node: tips[0]}, ce.Step{Kind: "reconsider", Node: tips[0]})
+		}
+		runHistory(t, tr, steps, ce.EnvOpt{UtxoCacheMaxSize: 1 << 20})
+		cl := "two-tips"
+		switch {
+		case invalidBranch >= 0:
+			cl = "with-invalid-branch"
+		case headerTip:
+			cl = "with-header-tip"
+		case nb >= 3:
+			cl = "three-plus-tips"
+		}
+		recRecon.Case(true, cl, treeHash(tr, steps), func() any { return map[string]any{"tree": tr.Describe(), "class": cl} })
+	})
+}
